@@ -142,14 +142,18 @@ def correspondence(ctx, model_ok=True):
             cases.append(("opench:%s:%d" % (ch, depth), ch * depth))
     cases += attribute_cases()
     lines = [vlib.case_line("c%d" % i, ["C:" + vlib.hx(src)], bytecode=1) for i, (_, src) in enumerate(cases)]
-    res = vlib.run_real(ctx.runner, lines, timeout_per_batch=300, batch=400)
+    res = vlib.run_real(ctx.runner, lines, timeout_per_batch=90, batch=400)
     ok_count = err_count = 0
+    not_run = 0
     verify_reqs, verify_owner = [], []
     distinct = set()
     from props import c04
     for (name, src), r in zip(cases, res):
         st = (r.get("steps") or [{}])[0] if isinstance(r, dict) and "steps" in r else None
         bad = None
+        if isinstance(r, dict) and str(r.get("crash", "")).startswith("not-run"):
+            not_run += 1
+            continue
         if st is None:
             bad = "the compiler did not return (process died or hung): %s" % str(r)[:120]
         elif st.get("status") == "panic":
@@ -201,7 +205,7 @@ def correspondence(ctx, model_ok=True):
         "rule": "prefixes of repository scripts (stride %d), 1-3 character/token-level mutations of scripts, random sequences over a %d-item token vocabulary, "
                 "nesting of 8 construct kinds up to depth 1000; distinct = distinct source text; oracle: returns, Ok xor located messages, accepted code verifies" % (stride, len(VOCAB)),
         "samples": [cases[len(cases) // 2][1][:200], cases[-1][1][:120]],
-        "accepted": ok_count, "rejected_with_located_errors": err_count, "functions_of_accepted_programs_verified": len(verify_reqs),
+        "not_run_after_hangs": not_run, "accepted": ok_count, "rejected_with_located_errors": err_count, "functions_of_accepted_programs_verified": len(verify_reqs),
         "programs": len(cases),
         "explanation": "the generated part of this check is fuzzing in support of the table/scanner theorems, not a proof about compiler.rs",
     }
